@@ -90,15 +90,21 @@ static void do_parse(FILE *f, int list, const char *path, unsigned salt) {
 
 /* ---------------- scratch fsroot (ops NI .. AR) ---------------- */
 static char rootdir[1300]; static int root_fd = -1;
-static char *made[4096]; static unsigned nmade;           /* created paths, removed in reverse order */
+static char *made[4096]; static unsigned nmade;           /* paths owned by the current op (files, hugepages entry directories), removed in reverse order */
+static char *stale[8192]; static unsigned nstale;         /* parent directories kept across ops (mkdir/rmdir are slow on the build disk); always empty between ops */
 static int fs_error;
 static void fs_track(const char *p) { if (nmade < 4096) made[nmade++] = strdup(p); else fs_error = 1; }
+static void fs_keep(const char *p) { if (nstale < 8192) stale[nstale++] = strdup(p); else fs_track(p); }
 static void fs_cleanup(void) {
   while (nmade) { char *p = made[--nmade]; if (unlink(p) < 0) rmdir(p); free(p); }
   fs_error = 0;
 }
-/* create <root>/<path> (bytes, no NUL) and its parent directories; kind 0 = regular file with content, 1 = directory */
-static void fs_make(const unsigned char *path, size_t pn, const unsigned char *c, size_t cn, int kind) {
+/* kept directories are invisible to the code under test (it only opens regular files by full name) except where this is called */
+static void fs_purge(void) { while (nstale) { char *p = stale[--nstale]; rmdir(p); free(p); } }
+static int fs_exists(const char *rel) { char full[1500]; struct stat sb; snprintf(full, sizeof full, "%s/%s", rootdir, rel); return stat(full, &sb) == 0; }
+/* create <root>/<path> (bytes, no NUL) and its parent directories; kind 0 = regular file with content, 1 = directory;
+ * own: directories created here belong to the op (removed after it) instead of being kept */
+static void fs_make2(const unsigned char *path, size_t pn, const unsigned char *c, size_t cn, int kind, int own) {
   char full[6000]; size_t fl = strlen(rootdir);
   size_t st[400], ln[400]; unsigned nc = 0;
   if (memchr(path, 0, pn) || pn > 4000) { fs_error = 1; return; }
@@ -117,10 +123,13 @@ static void fs_make(const unsigned char *path, size_t pn, const unsigned char *c
     full[fl++] = '/'; memcpy(full + fl, path + st[k], ln[k]); fl += ln[k]; full[fl] = 0;
     struct stat sb;
     if (k + 1 < nc || kind == 1) {
-      if (mkdir(full, 0755) == 0) fs_track(full);
+      if (mkdir(full, 0755) == 0) { if (own) fs_track(full); else fs_keep(full); }
       else if (errno != EEXIST || stat(full, &sb) < 0 || !S_ISDIR(sb.st_mode)) { fs_error = 1; return; }
     } else {
       int fd = open(full, O_CREAT | O_EXCL | O_WRONLY, 0644);
+      if (fd < 0 && errno == EEXIST && nstale && stat(full, &sb) == 0 && S_ISDIR(sb.st_mode)) {      /* a kept (empty) directory is in the way */
+        fs_purge(); fs_make2(path, pn, c, cn, kind, own); return;
+      }
       if (fd < 0) { if (errno != EEXIST || stat(full, &sb) < 0 || !S_ISREG(sb.st_mode)) fs_error = 1; return; }   /* first one wins */
       fs_track(full);
       if (cn && write(fd, c, cn) != (ssize_t) cn) fs_error = 1;
@@ -128,6 +137,7 @@ static void fs_make(const unsigned char *path, size_t pn, const unsigned char *c
     }
   }
 }
+static void fs_make(const unsigned char *path, size_t pn, const unsigned char *c, size_t cn, int kind) { fs_make2(path, pn, c, cn, kind, 0); }
 /* <files> token: `-` or hexpath:hexcontent,... */
 static void fs_materialise(char *tok) {
   if (!strcmp(tok, "-")) return;
@@ -182,6 +192,13 @@ static int exec_fs_op(const char *op, char **save) {
     size_t dn; unsigned char *db = unhex(d, &dn);
     unsigned alloc0 = (unsigned) strtoul(a, NULL, 10); uint64_t rem = strtoull(r, NULL, 10);
     fs_make(db, dn, NULL, 0, 1);
+    { /* the directory listing is what the op says: nothing kept may sit inside */
+      char *dp = malloc(strlen(rootdir) + dn + 2); memcpy(dp, rootdir, strlen(rootdir)); dp[strlen(rootdir)] = '/'; memcpy(dp + strlen(rootdir) + 1, db, dn); dp[strlen(rootdir) + 1 + dn] = 0;
+      DIR *dd = memchr(db, 0, dn) ? NULL : opendir(dp); int n = 0; struct dirent *de;
+      if (dd) { while ((de = readdir(dd))) if (strcmp(de->d_name, ".") && strcmp(de->d_name, "..")) n++; closedir(dd); }
+      free(dp);
+      if (n) { fs_purge(); fs_make(db, dn, NULL, 0, 1); }
+    }
     if (strcmp(es, "-")) {
       char *sv = NULL;
       for (char *it = strtok_r(es, ",", &sv); it; it = strtok_r(NULL, ",", &sv)) {
@@ -191,8 +208,8 @@ static int exec_fs_op(const char *op, char **save) {
         unsigned char *pp = malloc(dn + nn + 32); size_t pl = 0;
         memcpy(pp, db, dn); pl = dn; pp[pl++] = '/'; memcpy(pp + pl, nb, nn); pl += nn;
         if (memchr(nb, '/', nn) || !nn) fs_error = 1;
-        fs_make(pp, pl, NULL, 0, 1);
-        if (cb) { memcpy(pp + pl, "/nr_hugepages", 13); fs_make(pp, pl + 13, cb, cn, 0); }
+        fs_make2(pp, pl, NULL, 0, 1, 1);
+        if (cb) { memcpy(pp + pl, "/nr_hugepages", 13); fs_make2(pp, pl + 13, cb, cn, 0, 1); }
         free(pp); free(nb); free(cb);
       }
     }
@@ -220,6 +237,7 @@ static int exec_fs_op(const char *op, char **save) {
   }
   if (!strcmp(op, "MP") || !strcmp(op, "AR")) {
     char *bs = strtok_r(NULL, " \n", save), *fl = strtok_r(NULL, " \n", save); if (!bs || !fl) { fputs("bad-op\n", fout); return 1; }
+    if (fs_exists("sys/fs/cgroup/cpuset.cpus.effective") || fs_exists("sys/fs/cgroup/cpuset/cpuset.cpus") || fs_exists("dev/cpuset/cpus")) fs_purge();   /* access() also accepts directories */
     fs_materialise(fl);
     if (fs_error || strtoul(bs, NULL, 10) != (unsigned long) hwloc_getpagesize() * 4) fputs("harness-io-error\n", fout);
     else if (op[0] == 'M') {
@@ -433,7 +451,8 @@ static void gen_num(void) {
   static const char *edge[] = {"0\n", "1\n", "-1\n", "+7\n", " 42\n", "\t-42\n", "2147483647\n", "2147483648\n", "-2147483648\n", "-2147483649", "4294967295\n", "4294967296\n",
     "9999999999\n", "99999999999\n", "12345678901234\n", "18446744073709551615\n", "18446744073709551616\n", "-18446744073709551615", "9223372036854775807\n", "9223372036854775808\n",
     "-9223372036854775808\n", "-9223372036854775809\n", "184467440737095516150\n", "999999999999999999999\n", "1234567890123456789012\n", "0x10\n", "010\n", "1e3\n", "12abc\n", "abc\n", "\n", " ",
-    "--1\n", "+-1\n", "- 1\n", "00000000012\n", "000000000000000000000123\n", "4294967297\n", "-4294967295\n", "3000000000\n", "\v\f\r 5\n"};
+    "--1\n", "+-1\n", "- 1\n", "00000000012\n", "000000000000000000000123\n", "4294967297\n", "-4294967295\n", "3000000000\n", "\v\f\r 5\n",
+    "000000000000000000123\n", "0000000000000000000123\n", "00000000000000000123\n", "0000000123\n", "000000123\n", "-000000012\n", "-0000000012\n", "+000000000000000000012\n", "123456789012345678901\n", "12345678901234567890\n"};
   unsigned k = rng_below(100); const char *ops[] = {"NI", "NU", "NQ"}; const char *op = ops[rng_below(3)];
   if (k < 3) { fputs("NX\n", fops); stats2[B_NUM_MISSING]++; return; }
   if (k < 40) { unsigned long long v = rng_chance(50) ? rng_below(70000) : rng_chance(50) ? (rng_next() & 0xffffffffULL) : rng_next(); if (rng_chance(15)) g_putc('-');
@@ -746,7 +765,7 @@ static int root_setup(const char *out) {
   root_fd = open(rootdir, O_RDONLY | O_DIRECTORY);
   return root_fd < 0 ? -1 : 0;
 }
-static void root_teardown(void) { fs_cleanup(); if (root_fd >= 0) close(root_fd); rmdir(rootdir); }
+static void root_teardown(void) { fs_cleanup(); fs_purge(); if (root_fd >= 0) close(root_fd); rmdir(rootdir); }
 
 int main(int argc, char **argv) {
   if (argc >= 4 && !strcmp(argv[1], "--replay")) {
